@@ -2164,6 +2164,7 @@ def part_c01(ctx):
     c01_defaults_iterables(ctx)
     c01_declaration_styles(ctx)
     c16_history(ctx, 'c01')
+    directed_corpus(ctx, 'c01')
     answers = ctx.model(queries, driver='C01')
     for q, (op, impl, case), mod in zip(queries, expect, answers):
         if impl is None:
@@ -2924,6 +2925,143 @@ def strip_attrs(node):
     return dict(node, a=[], c=[strip_attrs(c) for c in node['c']])
 
 
+# ====================================================================================== directed corpus (runs on every seed)
+_DIRECTED_COUNTER = [0]
+
+
+def directed_corpus(ctx, pid):
+    """deterministic cases that random draws reach only now and then: SOAP in-headers sent as a non-prefix subset / in
+    another order; a polymorphic subclass value sent out of line (href / multiRef with xsi:type); xsi:type naming an XSD
+    built-in simple type on an element of a customised simple type; Enum texts that are Python attribute names of the
+    Enum class (body and header members). pid selects which oracle reports."""
+    from lxml import etree
+    from spyne import Application, ServiceBase, rpc, ComplexModel, Integer, Unicode, Enum, MethodContext
+    from spyne.server import ServerBase
+    _DIRECTED_COUNTER[0] += 1
+    n = _DIRECTED_COUNTER[0]
+    NS = 'urn:dir%d' % n
+    mk = type(ComplexModel)
+    H = [mk('DH%d_%d' % (j, n), (ComplexModel,), {'__namespace__': NS, '_type_info': [('t', Unicode)]}) for j in range(3)]
+    Color = Enum('red', 'green', type_name='DColor%d' % n)
+    HE = mk('DHE%d' % n, (ComplexModel,), {'__namespace__': NS, '_type_info': [('c', Color)]})
+    Base = mk('DBase%d' % n, (ComplexModel,), {'__namespace__': NS, '_type_info': [('a', Integer)]})
+    Sub = mk('DSub%d' % n, (Base,), {'__namespace__': NS, '_type_info': [('b', Unicode)]})
+    seen = []
+
+    def f_hdr(ctx):
+        seen.append(('hdr', ctx.in_header))
+
+    def f_poly(ctx, v):
+        seen.append(('poly', v))
+        return v
+
+    def f_simple(ctx, s, i):
+        seen.append(('simple', s, i))
+
+    def f_enum(ctx, c):
+        seen.append(('enum', c, ctx.in_header))
+    S = type('DSvc%d' % n, (ServiceBase,), {
+        'hdr': rpc(_in_header=tuple(H))(f_hdr), 'poly': rpc(Base, _returns=Base)(f_poly),
+        'simple': rpc(Unicode(max_len=3), Integer(le=10))(f_simple), 'enum': rpc(Color, _in_header=(HE,))(f_enum)})
+
+    def run(proto, validator, body, headers='', poly=False):
+        app = Application([S], NS, in_protocol=make_protocol(proto, validator, polymorphic=poly), out_protocol=make_protocol(proto, None, poly))
+        server = ServerBase(app)
+        if proto == 'xml':
+            data = body
+        else:
+            ens = NS_SOAP11 if proto == 'soap11' else NS_SOAP12
+            data = '<e:Envelope xmlns:e="%s" xmlns:d="%s" xmlns:xsi="%s" xmlns:xsd="http://www.w3.org/2001/XMLSchema">%s<e:Body>%s</e:Body></e:Envelope>' % (
+                ens, NS, XSI, '<e:Header>%s</e:Header>' % headers if headers else '', body)
+        del seen[:]
+        ictx = MethodContext(server, MethodContext.SERVER)
+        ictx.in_string = [data.encode('utf-8')]
+        crash = None
+        try:
+            c, = server.generate_contexts(ictx)
+            if c.in_error is None:
+                server.get_in_object(c)
+            if c.in_error is None:
+                server.get_out_object(c)
+            err = c.in_error or c.out_error
+            server.get_out_string(c)
+            out = b''.join(c.out_string)
+        except Exception as e:      # noqa
+            crash, err, out = '%s: %s' % (type(e).__name__, e), None, b''
+        return list(seen), (err.faultcode if err is not None else None), crash, data, out
+
+    def report(fid, what, proto, validator, data, out):
+        ctx.finding(fid, what + ' (%s, validator=%s)' % (proto, validator),
+                    {'kind': 'probe', 'probe': 'directed', 'pid': pid, 'proto': proto, 'validator': validator, 'request': data,
+                     'response': out.decode('utf-8', 'replace')})
+    XD = ' xmlns:d="%s" xmlns:xsi="%s" xmlns:xsd="http://www.w3.org/2001/XMLSchema"' % (NS, XSI)
+    for proto in PROTOS:
+        for validator in VALIDATORS:
+            ctx.hit('directed:%s' % pid)
+            # (1) in-headers: subsets that are no prefix of the declared order, other orders
+            if pid == 'c01' and proto != 'xml':
+                hx = ['<d:%s><d:t>h%d</d:t></d:%s>' % (H[j].get_type_name(), j, H[j].get_type_name()) for j in range(3)]
+                for tag, present in (('only-second', [1]), ('only-third', [2]), ('second+third', [1, 2]), ('reversed', [2, 1, 0]),
+                                     ('first+third', [0, 2]), ('all', [0, 1, 2])):
+                    got, fault, crash, data, out = run(proto, validator, '<d:hdr/>', ''.join(hx[j] for j in present))
+                    ctx.case({'directed': 'in-header', 'case': tag, 'p': proto, 'v': validator}, True)
+                    want = ['h%d' % j if j in present else None for j in range(3)]
+                    have = None
+                    if got and got[0][1] is not None:
+                        ih = got[0][1]
+                        have = [getattr(x, 't', None) if x is not None else None for x in (ih if isinstance(ih, (list, tuple)) else [ih])]
+                    if fault or crash or have != want:
+                        report('c01:in-header-subset:%s' % tag, 'in-header objects %s of 3 declared classes are sent; ctx.in_header '
+                               'holds %r, expected %r (fault %s)' % (present, have, want, fault or crash), proto, validator, data, out)
+            # (2) a subclass instance sent out of line
+            if pid in ('c01', 'c16') and proto != 'xml' and validator != 'lxml':
+                body = '<d:poly><d:v href="#id0"/></d:poly><multiRef id="id0" xsi:type="d:%s"><d:a>1</d:a><d:b>sub</d:b></multiRef>' % Sub.get_type_name()
+                got, fault, crash, data, out = run(proto, validator, body, poly=True)
+                ctx.case({'directed': 'multiref-subclass', 'p': proto, 'v': validator}, True)
+                v = got[0][1] if got else None
+                if fault or crash or v is None or type(v).get_type_name() != Sub.get_type_name() or (v.a, v.b) != (1, 'sub'):
+                    report('%s:multiref-subclass' % pid, 'a subclass instance sent as href + multiRef with xsi:type arrives as %r '
+                           '(fault %s)' % (v, fault or crash), proto, validator, data, out)
+            # (3) xsi:type naming an XSD built-in on an element of a customised simple type
+            if pid in ('c05', 'c04') and validator != 'lxml':
+                for tag, s_el, i_el, ok in (
+                        ('plain-conformant', '<d:s>abc</d:s>', '<d:i>10</d:i>', True),
+                        ('string-retag-too-long', '<d:s xsi:type="xsd:string">toolong</d:s>', '<d:i>1</d:i>', False),
+                        ('integer-retag-above-le', '<d:s>abc</d:s>', '<d:i xsi:type="xsd:integer">11</d:i>', False),
+                        ('int-retag-above-le', '<d:s>abc</d:s>', '<d:i xsi:type="xsd:int">11</d:i>', False),
+                        ('retag-conformant', '<d:s xsi:type="xsd:string">abc</d:s>', '<d:i xsi:type="xsd:integer">10</d:i>', None)):
+                    got, fault, crash, data, out = run(proto, validator, '<d:simple%s>%s%s</d:simple>' % (XD, s_el, i_el))
+                    ctx.case({'directed': 'simple-retag', 'case': tag, 'p': proto, 'v': validator}, True)
+                    if crash or (fault and not fault.startswith('Client')):
+                        report('%s:simple-retag-crash:%s' % (pid, tag), 'answered with %s' % (crash or fault), proto, validator, data, out)
+                    elif pid == 'c05' and validator == 'soft' and ok is not None and bool(got) != ok:
+                        report('c05:verdict:simple-retag:%s:%s' % (tag, 'accepted' if got else 'rejected'), 'soft validation %s '
+                               'a request whose simple-typed element carries xsi:type of an XSD built-in (%s); declared '
+                               'Unicode(max_len=3), Integer(le=10)' % ('accepted' if got else 'rejected', tag), proto, validator, data, out)
+                    elif pid == 'c04' and got and not (isinstance(got[0][1], (str, type(None))) and isinstance(got[0][2], (int, type(None)))):
+                        report('c04:foreign-value:simple-retag', 'the function received %r' % (got[0][1:],), proto, validator, data, out)
+            # (4) Enum texts that are attribute names of the Enum class
+            if pid in ('c04', 'c10'):
+                for text in ('__type_name__', '__values__', 'Attributes', '__doc__', '__module__', 'validate_string', 'red', ''):
+                    for where in ('body', 'header'):
+                        if where == 'header' and proto == 'xml':
+                            continue
+                        body = '<d:enum%s><d:c>%s</d:c></d:enum>' % (XD, text if where == 'body' else 'green')
+                        hdr = '<d:%s><d:c>%s</d:c></d:%s>' % (HE.get_type_name(), text, HE.get_type_name()) if where == 'header' else ''
+                        got, fault, crash, data, out = run(proto, validator, body, hdr)
+                        ctx.case({'directed': 'enum-attr-name', 'text': text, 'where': where, 'p': proto, 'v': validator}, True)
+                        if crash or (fault and not fault.startswith('Client')):
+                            if pid == 'c10':
+                                report('c10:enum-text-crash:%s' % where, 'Enum text %r in a %s member is answered with %s' % (
+                                    text, where, crash or fault), proto, validator, data, out)
+                        elif got and pid == 'c04':
+                            val = got[0][1] if where == 'body' else getattr(got[0][2], 'c', None)
+                            members = [getattr(Color, m) for m in Color.__values__]
+                            if val is not None and not any(val is m for m in members):
+                                report('c04:foreign-value:enum-attribute-name:%s' % where, 'Enum text %r in a %s member hands the '
+                                       'function %r, which is no member of the enumeration' % (text, where, val), proto, validator, data, out)
+
+
 # ====================================================================================== helpers shared by the parts
 def universes(ctx, n, **kw):
     """generated universes with one (app, server) per protocol configuration"""
@@ -3276,6 +3414,7 @@ def part_c04(ctx):
                                                         'ty': in_ty, 'val': None})
                         vv = queries[-1]['val']
                         expect.append(('hasTy', {'ok': py_has_ty_one(b, in_ty, vv)} if _no_bad(vv) else None, replay))
+    directed_corpus(ctx, 'c04')
     c04_array_retag(ctx, queries, expect)
     c04_ancestor_retag(ctx, queries, expect)
     c04_sequences(ctx)
@@ -3299,6 +3438,28 @@ def replay(ctx, obj):
     kind = obj.get('kind')
     if kind == 'c04seq':
         return replay_c04seq(ctx, obj)
+    if kind == 'probe' and obj.get('probe') == 'directed':
+        class _RecD(object):
+            def __init__(self):
+                self.found, self.cov, self.thorough = [], {}, False
+
+            def case(self, *a):
+                pass
+
+            def hit(self, *a):
+                pass
+
+            def finding(self, fid, what, rp):
+                self.found.append((fid, what, rp))
+        c = _RecD()
+        directed_corpus(c, obj.get('pid', 'c01'))
+        hits = [x for x in c.found if x[0] == obj.get('finding_id')]
+        for fid, what, rp in hits[:4]:
+            print(fid, '|', what[:400])
+            print('    request :', rp['request'][:700])
+            print('    response:', rp['response'][:400])
+        print('%d findings with this id (%d in all)' % (len(hits), len(c.found)))
+        return 1 if hits else 0
     if kind == 'probe' and obj.get('probe') in ('c01-declaration', 'c01-defaults'):
         class _Rec(object):
             def __init__(self):
@@ -3821,6 +3982,7 @@ def part_c05(ctx):
                                                                          'request': data.decode()})
     attrs_hostile(ctx, 'c05')
     c05_ranges(ctx)
+    directed_corpus(ctx, 'c05')
     ctx.cov['exhaustive_parts'] = 'i8/u8 bounds at top-level, nested and array-member positions: %d values x 5 positions x 3 protocols' % len(rng_vals)
     answers = ctx.model(queries, driver='C01')
     for q, (op, impl, case), mod in zip(queries, expect, answers):
@@ -4375,6 +4537,7 @@ def part_c16(ctx):
                 with open(os.environ['XML_DEBUG_DIS'], 'a') as f:
                     f.write(json.dumps({'q': q, 'impl': impl, 'model': mod}, default=str) + '\n')
     c16_history(ctx)
+    directed_corpus(ctx, 'c16')
     ctx.cov['rule_c16_xml'] = ('generated class trees (3-6 classes, inheritance probability .75, depth<=3, subclass in the namespace of its base; '
                                'namespace); argument and return values hold instances of random registered descendants of the '
                                'declared classes; xml/soap11/soap12 x validator None/soft x polymorphic on/off; non-trivial = the '
@@ -4578,6 +4741,7 @@ def part_c10(ctx):
         elif norm_answer(mod) != impl:
             ctx.disagree(op, case, impl, mod)
     attrs_hostile(ctx, 'c10')
+    directed_corpus(ctx, 'c10')
     ctx.cov['rule_c10_xml'] = ('valid requests of generated signatures damaged by prefix truncation, random bytes, bit flips, fixed '
                                'hostile literals, 13 kinds of structure-aware tree mutation and 12 kinds of envelope / dispatch '
                                'damage; {xml,soap11,soap12} x {None,soft,lxml} through ServerBase, a sample through WsgiApplication; '
